@@ -79,7 +79,8 @@ inline int run(int argc, char** argv) {
             else rv = gen_api(op, i, j, e);
         } catch (std::exception& ex) { escaped = true; }
         out << "{\"k\":\"ret\",\"op\":\"" << op << "\",\"i\":" << i << ",\"rv\":" << rv << ",\"esc\":" << (escaped ? "true" : "false");
-        if (op != "destroy" && (int)insts().size() > i && insts()[i]) { out << ","; gen_dump(*insts()[i], out); }
+        int di = (op == "copy" || op == "assign" || op == "move" || op == "moveassign" || op == "saveload") ? j : i;   // state of the object the call produced
+        if (op != "destroy" && di >= 0 && (int)insts().size() > di && insts()[di]) { out << ","; gen_dump(*insts()[di], out); }
         else out << ",\"st\":{},\"q\":{},\"fl\":[]";
         out << ",\"live\":" << RT::live() << ",\"bad\":" << RT::badlife() << "}\n";
     }
